@@ -90,7 +90,8 @@ Definition f64_to_Z (d : f64) : option Z :=
 Definition f64_quot (a : Z) (d : positive) (e : Z) : Z * Z * Z :=
   let num := if Z.leb 0 e then a else (a * 2 ^ (- e))%Z in
   let den := if Z.leb 0 e then (Zpos d * 2 ^ e)%Z else Zpos d in
-  (Z.div num den, Z.modulo num den, den).
+  let (q, r) := Z.div_eucl num den in
+  (q, r, den).
 
 (** the exponent at which the quotient has 53 bits (or -1074 for subnormals) *)
 Definition f64_exp (a : Z) (d : positive) : Z :=
@@ -111,9 +112,12 @@ Definition f64_of_Q (n : Z) (d : positive) : option f64 :=
   | _ =>
       let a := Z.abs n in
       let e := f64_exp a d in
-      let q' := f64_round (fst (fst (f64_quot a d e))) (snd (fst (f64_quot a d e))) (snd (f64_quot a d e)) in
-      if Z.leb (2 ^ 1024) (q' * 2 ^ (Z.max e 0))%Z then None
-      else Some (f64_norm (F64 (if Z.ltb n 0 then - q' else q') e))
+      match f64_quot a d e with
+      | (q, r, den) =>
+          let q' := f64_round q r den in
+          if Z.leb (2 ^ 1024) (q' * 2 ^ (Z.max e 0))%Z then None
+          else Some (f64_norm (F64 (if Z.ltb n 0 then - q' else q') e))
+      end
   end.
 
 (** Go's [float64(i)] for an [int] (never overflows) *)
